@@ -19,6 +19,11 @@ pub struct Case {
     pub arrays: Vec<usize>,
     /// ports (reads, writes) of the largest candidate, for the port-limit configs
     pub ports: (usize, usize),
+    /// child modules (fixed widths, no parameters) that the top instantiates — synthesized on their own to
+    /// count the compound cells that exist *before* flattening
+    pub children: Vec<String>,
+    /// instances of the top (and of nested children) with at least one port tied to a constant / partly constant value
+    pub const_tied: usize,
 }
 
 fn ty(w: usize, signed: bool) -> String {
@@ -46,6 +51,8 @@ pub struct B {
     pub ports: (usize, usize),
     pub clk_ty: String,
     pub rst_ty: String,
+    pub children: Vec<String>,
+    pub const_tied: usize,
 }
 
 impl B {
@@ -62,6 +69,8 @@ impl B {
             ports: (0, 0),
             clk_ty: "clock".into(),
             rst_ty: "reset".into(),
+            children: vec![],
+            const_tied: 0,
         }
     }
     pub fn feat(&mut self, f: &str) {
@@ -116,6 +125,8 @@ impl B {
             },
             arrays: self.arrays,
             ports: self.ports,
+            children: self.children,
+            const_tied: self.const_tied,
         }
     }
 }
@@ -629,6 +640,176 @@ fn t_hier(rng: &mut Rng) -> Case {
     b.finish("hier")
 }
 
+/// Hierarchy with constant tie-offs: small children full of and-or structures, short adders,
+/// comparators and muxes (so their own netlists already contain fused compound cells: AO21 / AO22 /
+/// OA21 / …) are instantiated several times with some inputs tied to small constants or partly
+/// constant concatenations; one child nests two others with tie-offs of its own.  Const-prop of
+/// *compound* cells only happens on this path (a parent flattening an already converted child).
+fn t_hierc(rng: &mut Rng) -> Case {
+    let mut b = B::new("hierc");
+    let w = 1 + rng.usize(3); // 1..3 bit operands: ripple carries fuse into AO21/AO22
+    let m = (1u64 << w) - 1;
+    // ---- children (fixed widths, no parameters)
+    b.pre.push_str(&format!(
+        "module HcAo (\n    a: input logic<{w}>,\n    b: input logic<{w}>,\n    c: input logic<{w}>,\n    d: input logic<{w}>,\n    y0: output logic<{w}>,\n    y1: output logic<{w}>,\n    y2: output logic<{w}>,\n    y3: output logic<{w}>,\n) {{\n    assign y0 = (a & b) | (c & d);\n    assign y1 = (a & b) | c;\n    assign y2 = (a | b) & (c | d);\n    assign y3 = ~((a & b) | (c & d));\n}}\n\n"
+    ));
+    let wa = w + 1;
+    b.pre.push_str(&format!(
+        "module HcAdd (\n    a: input logic<{w}>,\n    b: input logic<{w}>,\n    c: input logic<{w}>,\n    s: output logic<{wa}>,\n    t: output logic<{w}>,\n) {{\n    assign s = a + b;\n    assign t = (a + b) - c;\n}}\n\n"
+    ));
+    b.pre.push_str(&format!(
+        "module HcCmp (\n    a: input logic<{w}>,\n    b: input logic<{w}>,\n    k: input logic,\n    y: output logic<4>,\n    z: output logic<{w}>,\n) {{\n    assign y = {{a <: b, a == b, a >= b, (a != b) & k}};\n    assign z = if k ? (if a <: b ? a : b) : (a ^ b);\n}}\n\n"
+    ));
+    let registered = rng.bool();
+    if registered {
+        b.has_ff = true;
+        b.pre.push_str(&format!(
+            "module HcReg (\n    i_clk: input clock,\n    i_rst: input reset,\n    a: input logic<{w}>,\n    b: input logic<{w}>,\n    e: input logic,\n    q: output logic<{w}>,\n) {{\n    always_ff {{\n        if_reset {{\n            q = 0;\n        }} else if e {{\n            q = (a & b) | (q & ~a);\n        }}\n    }}\n}}\n\n"
+        ));
+        b.children.push("HcReg".into());
+    }
+    // two-level nesting: HcMid instantiates HcAdd and HcAo with tie-offs of its own
+    let k1 = 1 + rng.below(m.max(1));
+    let k2 = rng.below(m + 1);
+    b.pre.push_str(&format!(
+        "module HcMid (\n    a: input logic<{w}>,\n    b: input logic<{w}>,\n    y: output logic<{wa}>,\n    v: output logic<{w}>,\n) {{\n    var s0: logic<{wa}>;\n    var t0: logic<{w}>;\n    var g0: logic<{w}>;\n    var g1: logic<{w}>;\n    var g2: logic<{w}>;\n    var g3: logic<{w}>;\n    inst m0: HcAdd (\n        a: a,\n        b: {w}'d{k1},\n        c: b,\n        s: s0,\n        t: t0,\n    );\n    inst m1: HcAo (\n        a: t0,\n        b: {w}'d{m},\n        c: {w}'d{k2},\n        d: b,\n        y0: g0,\n        y1: g1,\n        y2: g2,\n        y3: g3,\n    );\n    assign y = s0 ^ {{1'b0, g0}};\n    assign v = g1 ^ g2 ^ g3;\n}}\n\n"
+    ));
+    b.const_tied += 2;
+    for c in ["HcAo", "HcAdd", "HcCmp", "HcMid"] {
+        b.children.push(c.to_string());
+    }
+    // ---- top
+    let nlive = 3 + rng.usize(2);
+    let live: Vec<String> = (0..nlive).map(|_| b.input(w, false)).collect();
+    let k = b.input(1, false);
+    // one connection: live signal, small constant, or a partly constant concatenation
+    let conn = |rng: &mut Rng, tied: &mut bool| -> String {
+        match rng.below(8) {
+            0 | 1 | 2 => rng.pick(&live).clone(),
+            3 => {
+                *tied = true;
+                "0".to_string()
+            }
+            4 => {
+                *tied = true;
+                format!("{w}'d{}", 1 + rng.below(m.max(1)))
+            }
+            5 => {
+                *tied = true;
+                format!("{w}'d{m}")
+            }
+            6 if w >= 2 => {
+                *tied = true;
+                let x = rng.pick(&live).clone();
+                if rng.bool() { format!("{{1'b{}, {x}[{}:0]}}", rng.below(2), w - 2) } else { format!("{{{x}[{}:1], 1'b{}}}", w - 1, rng.below(2)) }
+            }
+            _ => format!("({} ^ {})", rng.pick(&live), rng.pick(&live)),
+        }
+    };
+    let n = 6 + rng.usize(5);
+    let mut outs: Vec<(String, usize)> = vec![];
+    for i in 0..n {
+        let mut tied = false;
+        match rng.below(if registered { 5 } else { 4 }) {
+            0 => {
+                let (mut a, mut bb, mut c, mut d) = (conn(rng, &mut tied), conn(rng, &mut tied), conn(rng, &mut tied), conn(rng, &mut tied));
+                if rng.bool() {
+                    // one product term dead (a 0 leg), the other with one leg tied high or to a small constant:
+                    // the fused and-or cell has to fold to the surviving live leg
+                    tied = true;
+                    let hot = if rng.bool() { format!("{w}'d{m}") } else { format!("{w}'d{}", 1 + rng.below(m.max(1))) };
+                    let l1 = rng.pick(&live).clone();
+                    let l2 = rng.pick(&live).clone();
+                    (a, bb, c, d) = match rng.below(4) {
+                        0 => (hot, l1, "0".to_string(), l2),
+                        1 => (l1, hot, l2, "0".to_string()),
+                        2 => ("0".to_string(), l1, hot, l2),
+                        _ => (l1, "0".to_string(), l2, hot),
+                    };
+                }
+                for j in 0..4 {
+                    b.d(&format!("    var hi{i}_y{j}: logic<{w}>;"));
+                    outs.push((format!("hi{i}_y{j}"), w));
+                }
+                b.b(&format!("    inst hi{i}: HcAo (\n        a: {a},\n        b: {bb},\n        c: {c},\n        d: {d},\n        y0: hi{i}_y0,\n        y1: hi{i}_y1,\n        y2: hi{i}_y2,\n        y3: hi{i}_y3,\n    );"));
+                b.feat("child_and_or");
+            }
+            1 => {
+                let (a, bb, c) = (conn(rng, &mut tied), conn(rng, &mut tied), conn(rng, &mut tied));
+                b.d(&format!("    var hi{i}_s: logic<{wa}>;\n    var hi{i}_t: logic<{w}>;"));
+                outs.push((format!("hi{i}_s"), wa));
+                outs.push((format!("hi{i}_t"), w));
+                b.b(&format!("    inst hi{i}: HcAdd (\n        a: {a},\n        b: {bb},\n        c: {c},\n        s: hi{i}_s,\n        t: hi{i}_t,\n    );"));
+                b.feat("child_small_adder");
+            }
+            2 => {
+                let (a, bb) = (conn(rng, &mut tied), conn(rng, &mut tied));
+                let kk = match rng.below(3) {
+                    0 => {
+                        tied = true;
+                        "1".to_string()
+                    }
+                    1 => {
+                        tied = true;
+                        "0".to_string()
+                    }
+                    _ => k.clone(),
+                };
+                b.d(&format!("    var hi{i}_y: logic<4>;\n    var hi{i}_z: logic<{w}>;"));
+                outs.push((format!("hi{i}_y"), 4));
+                outs.push((format!("hi{i}_z"), w));
+                b.b(&format!("    inst hi{i}: HcCmp (\n        a: {a},\n        b: {bb},\n        k: {kk},\n        y: hi{i}_y,\n        z: hi{i}_z,\n    );"));
+                b.feat("child_compare_mux");
+            }
+            3 => {
+                let (a, bb) = (conn(rng, &mut tied), conn(rng, &mut tied));
+                b.d(&format!("    var hi{i}_y: logic<{wa}>;\n    var hi{i}_v: logic<{w}>;"));
+                outs.push((format!("hi{i}_y"), wa));
+                outs.push((format!("hi{i}_v"), w));
+                b.b(&format!("    inst hi{i}: HcMid (\n        a: {a},\n        b: {bb},\n        y: hi{i}_y,\n        v: hi{i}_v,\n    );"));
+                b.const_tied += 2; // the two nested instances carry tie-offs of their own
+                b.feat("child_two_levels");
+            }
+            _ => {
+                let (a, bb) = (conn(rng, &mut tied), conn(rng, &mut tied));
+                let e = if rng.bool() {
+                    tied = true;
+                    "1".to_string()
+                } else {
+                    k.clone()
+                };
+                b.d(&format!("    var hi{i}_q: logic<{w}>;"));
+                outs.push((format!("hi{i}_q"), w));
+                b.b(&format!("    inst hi{i}: HcReg (\n        i_clk,\n        i_rst,\n        a: {a},\n        b: {bb},\n        e: {e},\n        q: hi{i}_q,\n    );"));
+                b.feat("child_registered");
+            }
+        }
+        if tied {
+            b.const_tied += 1;
+        }
+    }
+    // every instance output is observable: packed into outputs of at most 60 bits
+    let mut cur: Vec<String> = vec![];
+    let mut curw = 0;
+    let flush = |b: &mut B, cur: &mut Vec<String>, curw: &mut usize| {
+        if !cur.is_empty() {
+            let o = b.output(*curw, false);
+            b.b(&format!("    assign {o} = {{{}}};", cur.join(", ")));
+            cur.clear();
+            *curw = 0;
+        }
+    };
+    for (name, ww) in outs {
+        if curw + ww > 60 {
+            flush(&mut b, &mut cur, &mut curw);
+        }
+        cur.push(name);
+        curw += ww;
+    }
+    flush(&mut b, &mut cur, &mut curw);
+    b.finish("hierc")
+}
+
 fn t_iface(rng: &mut Rng) -> Case {
     let mut b = B::new("iface");
     b.has_ff = true;
@@ -772,7 +953,7 @@ fn designgen(rng: &mut Rng, i: u64) -> Case {
     };
     let d = generate(rng, &opts);
     let arrays = if d.features.iter().any(|f| f.starts_with("ff_array")) { vec![64] } else { vec![] };
-    Case { kind: kind.to_string(), design: d, arrays, ports: (1, 1) }
+    Case { kind: kind.to_string(), design: d, arrays, ports: (1, 1), children: vec![], const_tied: 0 }
 }
 
 pub const TEMPLATES: [&str; 11] = ["muldiv", "shift", "widemux", "decode", "counter", "scan", "ram", "hier", "iface", "resets", "fsm"];
@@ -793,12 +974,13 @@ pub fn gen_case(seed: u64, i: u64) -> Case {
             "tiny_signed" => GenOpts { ffs: (0, 0), combs: (0, 1), outputs: (1, 1), inputs: (2, 3), expr_depth: 1, max_width: 10, instances: false, ..base },
             "tiny2" => GenOpts { signed: false, ffs: (0, 0), combs: (0, 1), outputs: (1, 1), inputs: (2, 3), expr_depth: 2, max_width: 10, instances: false, ..base },
             "clean" => return crate::cleangen::clean_case(&mut rng, i),
+            "hierc" => return t_hierc(&mut rng),
             "known" => return crate::known::probe(&mut rng, i),
             "tiny_ff" => GenOpts { signed: false, ffs: (1, 1), combs: (0, 0), outputs: (1, 1), inputs: (2, 3), expr_depth: 1, max_width: 10, instances: false, arrays: false, ..base },
             _ => base,
         };
         let d = generate(&mut rng, &opts);
-        return Case { kind: format!("dg_{mode}"), design: d, arrays: vec![], ports: (1, 1) };
+        return Case { kind: format!("dg_{mode}"), design: d, arrays: vec![], ports: (1, 1), children: vec![], const_tied: 0 };
     }
     // 20 slots: 5 cleangen, 12 templates (RAM twice), 1 vgen DesignGen, 2 known-defect probes
     match i % 20 {
@@ -806,7 +988,7 @@ pub fn gen_case(seed: u64, i: u64) -> Case {
         3 => crate::cleangen::clean_case(&mut rng, 1),
         10 => crate::cleangen::clean_case(&mut rng, 2),
         15 => crate::cleangen::clean_case(&mut rng, 3),
-        18 => crate::cleangen::clean_case(&mut rng, i / 20),
+        18 => t_hierc(&mut rng),
         5 => designgen(&mut rng, i / 20),
         13 => crate::known::probe(&mut rng, 2 * (i / 20)),
         19 => crate::known::probe(&mut rng, 2 * (i / 20) + 1),
